@@ -1452,6 +1452,28 @@ def install(reg):
     wrap(torch.linalg.norm, m_norm)
     wrap(torch.linalg.vector_norm, m_norm)
 
+    def m_normalize(interp, x, p=2.0, dim=1, eps=1e-12, out=None):
+        """torch.nn.functional.normalize(x, p, dim, eps) = x / max(||x||_p, eps) along dim (p in {1, 2})"""
+        if not isinstance(x, (SymArr, Sym)):
+            if isinstance(x, (CT,) + _A_TYPES):
+                raise OutOfSubset("F.normalize of a complex / abstract tensor")
+            return NotImplemented
+        if not isinstance(x, SymArr) or x.ndim != 1 or dim not in (0, -1):
+            raise OutOfSubset("F.normalize is modelled for 1-D real tensors only")
+        pv = p.literal() if isinstance(p, Sym) else p
+        if pv in (2, 2.0):
+            nrm = reals.app("sqrt", (x * x).sum())
+        elif pv in (1, 1.0):
+            nrm = abs(x).sum()
+        else:
+            raise OutOfSubset("F.normalize with p other than 1 or 2")
+        d = V.smax(nrm, eps)
+        r = elementwise(lambda e: V._realdiv(e, d), x)
+        r.as_type = torch.Tensor
+        return r
+
+    wrap(torch.nn.functional.normalize, m_normalize)
+
     def m_conj(interp, x):
         if isinstance(x, (CT, AT)):
             return x.conj()
